@@ -57,6 +57,10 @@ def lean_stage(prop, ctx, res):
     for rel in files:
         path = os.path.join(common.LEAN, rel)
         names = common.property_theorems(path)
+        if "/Lemmas/" in rel:
+            # a lemma file listed for a property: only its property-level theorems (Cxx_…) are obligations
+            import re as _re
+            names = [n for n in names if _re.match(r"C\d\d", n.split(".")[-1])]
         okf, ax, outf = common.check_props_file(rel, names)
         checker.append(f"cd lean && lake env lean {rel}")
         for n in names:
